@@ -1,10 +1,11 @@
-// seq_pub.cpp — sequential differential driver for cocls::publisher<int> / cocls::subscriber<int> (C16).
+// seq_pub.cpp — sequential differential driver for cocls::publisher<pint> / cocls::subscriber<pint> (C16; pint = poisoning int).
 // engine: pub.  First line of a case: "<min> <max>" (max 0 = unlimited).  subscriber::next() is driven through its
 // awaiter's public steps await_ready / subscribe|await_suspend / await_resume, one op each, so the window between
 // the locked steps is reachable deterministically.  Wake-ups are observed by custom awaiters that log their id when
 // resumed (and whether the queue's mutex was free at that moment).  No expected values in here.
 #define VH_DEFINE_NEW
 #include "common.h"
+#include "pub_common.h"
 #define protected public
 #define private public
 #include <cocls/publisher.h>
@@ -12,8 +13,8 @@
 #undef private
 
 using namespace cocls;
-using pub_t = publisher<int>;
-using sub_t = subscriber<int>;
+using pub_t = publisher<pint>;
+using sub_t = subscriber<pint>;
 
 struct Ctx;
 
@@ -183,14 +184,14 @@ static void exec(Ctx &c, const std::vector<long> &op, std::vector<std::unique_pt
     switch (op[0]) {
         case 0: {  // publish v
             if (n != 2 || !c.pub) return reject(c);
-            if (op[1] & 1) c.pub->publish((int)op[1]);   // push(T&&)
-            else { const int v = (int)op[1]; c.pub->publish(v); }   // push(const T&)
+            if (op[1] & 1) c.pub->publish(pint((int)op[1]));   // push(T&&)
+            else { const pint v((int)op[1]); c.pub->publish(v); }   // push(const T&)
             return emit(c, 0, 0, 0, 0);
         }
         case 1: {  // publish batch
             if (!c.pub) return reject(c);
-            std::vector<int> vs;
-            for (size_t i = 1; i < n; i++) vs.push_back((int)op[i]);
+            std::vector<pint> vs;
+            for (size_t i = 1; i < n; i++) vs.push_back(pint((int)op[i]));
             c.pub->publish(vs.begin(), vs.end());
             return emit(c, 0, 0, 0, 0);
         }
@@ -261,7 +262,7 @@ static void exec(Ctx &c, const std::vector<long> &op, std::vector<std::unique_pt
                 }
             }
             bool r = s->next().await_resume();
-            return emit(c, 0, r, r ? (long)s->value() : 0, (long)s->position());
+            return emit(c, 0, r, r ? (long)(int)s->value() : 0, (long)s->position());
         }
         case 8: {  // kick
             if (n != 2 || !small(op[1])) return reject(c);
@@ -276,6 +277,17 @@ static void exec(Ctx &c, const std::vector<long> &op, std::vector<std::unique_pt
             if (n != 2 || !small(op[1])) return reject(c);
             Ctx::Slot *x = c.find(op[1]);
             if (!x || !x->live || c.helpers.count(op[1])) return reject(c);
+            // a subscriber destroyed while an awaiter of it is parked: the awaiter goes away with it (as the frame of a
+            // destroyed coroutine would); a later resume of it is a use after free
+            {
+                awaiter *a = c.q->_regs[x->p->_h]._awt;
+                if (a) {
+                    for (auto &r : c.recs)
+                        if (r.get() == a) r.reset();
+                    for (auto &hh : c.held)
+                        if (static_cast<awaiter *>(hh.get()) == a) hh.reset();
+                }
+            }
             x->p->~sub_t();
             x->live = false;
             return emit(c, 0, 0, 0, 0);
@@ -344,7 +356,7 @@ static void exec(Ctx &c, const std::vector<long> &op, std::vector<std::unique_pt
             } else {
                 hp->th.join();
                 bool r = hp->ret;
-                emit(c, 0, r, r ? (s->_val.has_value() ? (long)*s->_val : -1) : 0, (long)s->position());
+                emit(c, 0, r, r ? (s->_val.has_value() ? (long)(int)*s->_val : -1) : 0, (long)s->position());
             }
             return;
         }
@@ -362,7 +374,7 @@ static void exec(Ctx &c, const std::vector<long> &op, std::vector<std::unique_pt
             h.th.join();
             bool r = h.ret;
             c.helpers.erase(it);
-            return emit(c, 0, r, r ? (s->_val.has_value() ? (long)*s->_val : -1) : 0, (long)s->position());
+            return emit(c, 0, r, r ? (s->_val.has_value() ? (long)(int)*s->_val : -1) : 0, (long)s->position());
         }
         case 15: {  // next_ready()
             sub_t *s = (n == 2 && small(op[1])) ? c.free_sub(op[1]) : nullptr;
@@ -381,7 +393,7 @@ static void exec(Ctx &c, const std::vector<long> &op, std::vector<std::unique_pt
                     if (e.kind == 2) { got = true; pos_after_ready = e.pos_before; }
             }
             emit(c, 0, got, pos_after_ready, 0);
-            if (got) emit(c, 0, r, r ? (long)s->value() : 0, (long)s->position());
+            if (got) emit(c, 0, r, r ? (long)(int)s->value() : 0, (long)s->position());
             return;
         }
         default:
